@@ -324,6 +324,14 @@ JsonDenotes ==
   LET src == ModelSrc("d1")
       rd == ReadAJ(EncAJ(ms, "d1"))
   IN ReadBagEq(rd, src) \/ ShadowExplains(src, rd) \/ HasDefaultPrefix(src)
+(* ... and read by the transcription of the library's OWN reader (DecJ: the calls it makes on a     *)
+(* fresh document, executed by the model): no exception, same content - the PROV-JSON round trip   *)
+(* (C01) decided on the model for every reachable state                                            *)
+JsonRoundTrip ==
+  LET src == ModelSrc("d1")
+      r   == DecJ(EncAJ(ms, "d1"))
+  IN HasDefaultPrefix(src) \/
+     (r.exc = "none" /\ (ReadBagEq(RdOf(r.st, RH), src) \/ ShadowExplains(src, RdOf(r.st, RH))))
 (* the same for the transcribed PROV-XML writer, for both values of force_types.  A literal typed *)
 (* xsd:QName is not XML-expressible (C02's quantifier): the format spells qualified names so.     *)
 HasQNameLit(src) ==
